@@ -30,6 +30,30 @@ def _identifiers(trees):
     return out
 
 
+def _member_identifiers(trees):
+    """Names through which a class member can be reached: attribute names, string constants (getattr / setattr / dict
+    keys), keyword names (`Body(**kwargs)` sets attributes from them) and class-level assigned names.  A local variable or a
+    parameter called `line1` cannot reach a method `Tle.line1`."""
+    out = set()
+    for t in trees.values():
+        for n in ast.walk(t):
+            if isinstance(n, ast.Attribute):
+                out.add(n.attr)
+            elif isinstance(n, ast.keyword) and n.arg:
+                out.add(n.arg)
+            elif isinstance(n, ast.Constant) and isinstance(n.value, str) and n.value.isidentifier():
+                out.add(n.value)
+            elif isinstance(n, ast.ClassDef):
+                for st in n.body:
+                    if isinstance(st, (ast.FunctionDef, ast.AsyncFunctionDef)):
+                        out.add(st.name)
+                    elif isinstance(st, (ast.Assign, ast.AnnAssign)):
+                        for tg in (st.targets if isinstance(st, ast.Assign) else [st.target]):
+                            if isinstance(tg, ast.Name):
+                                out.add(tg.id)
+    return out
+
+
 def tree_fingerprints(repo):
     known = set(repo.by_name)
     trees = {m.name: ast.parse(m.source) for m in repo.modules.values()}     # un-restored source: E8 ignores local names
@@ -51,7 +75,8 @@ def tree_fingerprints(repo):
     transparent = sorted(f"{rel}::{h}" for rel, m in out.items() for h in m["transparent"])   # every use evaluated in place
     import hashlib
     sources = {rel: hashlib.sha256(m.source.encode()).hexdigest()[:16] for rel, m in repo.modules.items()}
-    return {"modules": out, "sources": sources, "helpers": helpers, "transparent": transparent, "identifiers": sorted(_identifiers(trees))}
+    return {"modules": out, "sources": sources, "helpers": helpers, "transparent": transparent, "identifiers": sorted(_identifiers(trees)),
+            "member_identifiers": sorted(_member_identifiers(trees))}
 
 
 _REF = None
@@ -113,6 +138,16 @@ def same_as_reference(chk, rule, rel, key, what, missing_ok=False):
             return True
         raise AnalysisError(f"anchor function {rel}::{key} not found")
     ok = cur == ref
+    if not ok and "#" not in key and not key.startswith("const:"):
+        # a new optional parameter whose default keeps the old behaviour: the function with the added parameters bound to
+        # their defaults is compared (old callers cannot pass them; a caller that does is a changed function itself)
+        try:
+            sp = specialised_fp(chk.repo, rel, key)
+        except Exception:
+            sp = None
+        if sp is not None and sp == ref:
+            ok = True
+            what = what + "; with the added optional parameter(s) at their default"
     where = rel
     if "#" not in key and not key.startswith("const:"):
         q = key.split(":")[0]
@@ -153,6 +188,7 @@ def definition_changes(repo, rel):
     cur = tree_of(repo)
     ref_helpers, cur_helpers = set(ref["helpers"]), set(cur["helpers"])
     ref_ids, cur_ids = set(ref["identifiers"]), set(cur["identifiers"])
+    ref_member_ids = set(ref.get("member_identifiers", []))
 
     def bare(key):
         return key.split("#")[-1] if "#" in key else key.split(".")[-1].split(":")[0]
@@ -172,7 +208,10 @@ def definition_changes(repo, rel):
             continue
         if "#" not in k and f"{rel}::{k}" in cur_helpers and name not in ref_ids:
             continue
-        if name not in ref_ids and not (name.startswith("__") and name.endswith("__")):
+        # a class member is reachable through attribute names / strings only; a module-level unit through any identifier
+        is_member = ("." in k.split("#")[0]) if "#" in k else ("." in k)
+        used = ref_member_ids if (is_member and ref_member_ids) else ref_ids
+        if name not in used and not (name.startswith("__") and name.endswith("__")):
             # new API under a name nobody could have used -- unless binding it RUNS something: a module- or class-level
             # statement executes at import (wave m: `for _name in ("Moon", "Sun"): get_frame(_name)` at the end of
             # solarsystem.py registered two more centres called Moon and Sun; `X = Frame("EME2000", ...)` would re-register)
@@ -330,6 +369,11 @@ def compare(repo):
             elif c["funcs"][key] != fp:
                 if ident in ref_transparent and ident in cur_transparent:
                     continue            # reachable only through callers, every one of which evaluates it in place
+                try:
+                    if specialised_fp(repo, rel, key) == fp:
+                        continue        # a new optional parameter; equal when it takes its default
+                except Exception:
+                    pass
                 unproven.append(ident)
     for rel, c in cur["modules"].items():
         rfuncs = ref["modules"].get(rel, {"funcs": {}})["funcs"]
@@ -345,3 +389,151 @@ def compare(repo):
                 continue
             unproven.append(f"{ident} (added)")
     return {"equivalent": not unproven, "unproven": unproven, "functions": n}
+
+
+# ---- a new optional parameter at its default ----------------------------------------------------------------------------
+
+class _Bind(ast.NodeTransformer):
+    def __init__(self, values):
+        self.values = values
+
+    def visit_Name(self, n):
+        if isinstance(n.ctx, ast.Load) and n.id in self.values:
+            return ast.copy_location(ast.Constant(value=self.values[n.id]), n)
+        return n
+
+
+def _const_truth(n):
+    """(known, value) of an expression made of constants only, for the handful of tests a defaulted flag is used in."""
+    if isinstance(n, ast.Constant):
+        return True, n.value
+    if isinstance(n, ast.UnaryOp) and isinstance(n.op, ast.Not):
+        k, v = _const_truth(n.operand)
+        return (k, (not v) if k else None)
+    if isinstance(n, ast.Compare) and len(n.ops) == 1:
+        k1, a = _const_truth(n.left)
+        k2, b = _const_truth(n.comparators[0])
+        if k1 and k2:
+            op = n.ops[0]
+            try:
+                if isinstance(op, ast.Is):
+                    return True, (a is b) if (a is None or b is None or isinstance(a, bool) or isinstance(b, bool)) else (a == b and type(a) is type(b))
+                if isinstance(op, ast.IsNot):
+                    return True, not ((a is b) if (a is None or b is None or isinstance(a, bool) or isinstance(b, bool)) else (a == b and type(a) is type(b)))
+                if isinstance(op, ast.Eq):
+                    return True, a == b
+                if isinstance(op, ast.NotEq):
+                    return True, a != b
+            except Exception:
+                return False, None
+    return False, None
+
+
+class _Fold(ast.NodeTransformer):
+    """Removes the arms a constant test cannot take.  `and` / `or` with a constant first operand fold the Python way."""
+
+    def visit_If(self, n):
+        self.generic_visit(n)
+        k, v = _const_truth(n.test)
+        if k:
+            return (n.body if v else n.orelse) or [ast.copy_location(ast.Pass(), n)]
+        return n
+
+    def visit_IfExp(self, n):
+        self.generic_visit(n)
+        k, v = _const_truth(n.test)
+        if k:
+            return n.body if v else n.orelse
+        return n
+
+    def visit_BoolOp(self, n):
+        self.generic_visit(n)
+        vals = list(n.values)
+        while len(vals) > 1:
+            k, v = _const_truth(vals[0])
+            if not k:
+                break
+            if isinstance(n.op, ast.And):
+                if v:
+                    vals.pop(0)
+                else:
+                    return vals[0]
+            else:
+                if v:
+                    return vals[0]
+                vals.pop(0)
+        if len(vals) == 1:
+            return vals[0]
+        n.values = vals
+        return n
+
+
+def specialised_fp(repo, rel, key):
+    """Fingerprint of function `key` of the current tree with the parameters the reference version does not have bound to
+    their (constant) defaults and the dead arms removed -- or None when that reading does not apply: the reference
+    parameters must be a prefix (positional) / subset (keyword-only) of the current ones, every added parameter must have a
+    constant default and must never be re-bound in the body."""
+    ref_params = reference()["modules"].get(rel, {}).get("params", {}).get(key)
+    if ref_params is None or ":" in key:
+        return None
+    m = repo.module(rel)
+    tree = ast.parse(m.source)
+    path = key.split(".")
+    body, fn = tree.body, None
+    for i, part in enumerate(path):
+        last = i == len(path) - 1
+        cands = [x for x in body if isinstance(x, (ast.ClassDef if not last else (ast.FunctionDef, ast.AsyncFunctionDef))) and x.name == part]
+        if not cands:
+            return None
+        if last:
+            fn = cands[-1]
+        else:
+            body = cands[-1].body
+    a = fn.args
+    if any(d for d in fn.decorator_list if ast.unparse(d).endswith((".setter", ".deleter", ".getter"))):
+        return None
+    pos = [x.arg for x in a.posonlyargs + a.args]
+    ref_pos = [x for x in ref_params if not x.startswith(("*", "="))]
+    ref_kwo = [x[1:] for x in ref_params if x.startswith("=")]
+    ref_var = [x for x in ref_params if x.startswith("*")]
+    cur_var = (["*" + a.vararg.arg] if a.vararg else []) + (["**" + a.kwarg.arg] if a.kwarg else [])
+    if pos[:len(ref_pos)] != ref_pos or cur_var != ref_var or any(k not in [x.arg for x in a.kwonlyargs] for k in ref_kwo):
+        return None
+    values = {}
+    extra_pos = pos[len(ref_pos):]
+    ndef = len(a.defaults)
+    for name in extra_pos:
+        idx = pos.index(name) - (len(pos) - ndef)
+        if idx < 0 or not isinstance(a.defaults[idx], ast.Constant):
+            return None
+        values[name] = a.defaults[idx].value
+    for x, d in zip(a.kwonlyargs, a.kw_defaults):
+        if x.arg not in ref_kwo:
+            if not isinstance(d, ast.Constant):
+                return None
+            values[x.arg] = d.value
+    if not values:
+        return None
+    for n in ast.walk(fn):
+        if isinstance(n, ast.Name) and n.id in values and isinstance(n.ctx, (ast.Store, ast.Del)):
+            return None
+        if isinstance(n, (ast.Global, ast.Nonlocal)) and set(n.names) & set(values):
+            return None
+    # drop the added parameters, bind their names, fold
+    keep = len(ref_pos)
+    all_pos = a.posonlyargs + a.args
+    drop_defaults = len(extra_pos)
+    a.defaults = a.defaults[:len(a.defaults) - drop_defaults] if drop_defaults else a.defaults
+    a.posonlyargs = [x for x in a.posonlyargs if x.arg in ref_pos]
+    a.args = [x for x in a.args if x.arg in ref_pos]
+    kw = [(x, d) for x, d in zip(a.kwonlyargs, a.kw_defaults) if x.arg in ref_kwo]
+    a.kwonlyargs, a.kw_defaults = [x for x, _ in kw], [d for _, d in kw]
+    fn.body = [_Fold().visit(_Bind(values).visit(st)) for st in fn.body]
+    flat = []
+    for st in fn.body:
+        flat.extend(st if isinstance(st, list) else [st])
+    fn.body = flat or [ast.Pass()]
+    ast.fix_missing_locations(tree)
+    module_fingerprints(repo, rel)          # fills the caches of helper tables
+    fp = vgraph.module_fingerprints(tree, m.name, m.is_pkg, set(repo.by_name), repo.__dict__["_e8_inl"])
+    return fp["funcs"].get(key)
